@@ -1,6 +1,213 @@
+"""C18 — symbols are interned (R18a-d)."""
+from ..facts import callee, op_place, place_str, short_path
+from ..flow import places_read
+from .common import *
+
+PUTS = {HEAP + "put", HEAP + "maybe_put"}
+
+
+def _returns_value(fn, local):
+    """does `local` flow (moves only) into the return place, possibly wrapped in Ok(..)?"""
+    seen = set()
+    work = [local]
+    while work:
+        l = work.pop()
+        if l in seen:
+            continue
+        seen.add(l)
+        if l == 0:
+            return True
+        for bb, j, s in fn.stmts():
+            rv = s["rv"]
+            if any(p["l"] == l for p in places_read(rv)):
+                if rv["k"] in ("use",) or (rv["k"] == "agg" and rv.get("variant") in ("Ok", "Some")):
+                    work.append(s["lhs"]["l"])
+    return False
+
+
+def _direct_sinks(fn, local):
+    """callees that receive `local` (after moves) as an argument"""
+    out = []
+    seen = set()
+    work = [local]
+    while work:
+        l = work.pop()
+        if l in seen:
+            continue
+        seen.add(l)
+        for bb, j, s in fn.stmts():
+            rv = s["rv"]
+            if rv["k"] == "use" and any(p["l"] == l for p in places_read(rv)) and not s["lhs"]["p"]:
+                work.append(s["lhs"]["l"])
+        for bb, t in fn.calls():
+            for a in t["args"]:
+                p = op_place(a)
+                if p is not None and p["l"] == l:
+                    out.append((callee(t), t))
+    return out
+
+
+def symbol_sites(facts):
+    """construction sites of VCell::Symbol outside derived impls, with constructor wrappers unfolded"""
+    wrappers = set()
+    sites = []
+    for p, g in sorted(facts.fns.items()):
+        if g.impl_trait in DERIVE_TRAITS and (g.impl_self or "").endswith("VCell"):
+            continue
+        for bb, j, s in g.stmts():
+            rv = s["rv"]
+            if rv["k"] == "agg" and rv.get("adt") == VCELL and rv.get("variant") == "Symbol":
+                if not s["lhs"]["p"] and s["lhs"]["l"] == 0:
+                    wrappers.add(p)
+                else:
+                    sites.append((g, s["lhs"], s["loc"], "aggregate"))
+    for p, g in sorted(facts.fns.items()):
+        for bb, t in g.calls():
+            if callee(t) in wrappers:
+                sites.append((g, t["dest"], t["loc"], "call " + short_path(callee(t))))
+    return sites, wrappers
+
+
 def r18a(ctx, rep, rule="R18a"):
-    pass
+    facts, cg = ctx["facts"], ctx["cg"]
+    rep.rule(rule, "one way in: every construction of VCell::Symbol (the aggregate, or a call of a constructor wrapper "
+             "that returns it) outside derived impls is the direct argument of Heap::put/maybe_put (the interning "
+             "arms), or the Ok value of a registered builtin (which CALL/TCALL pass through maybe_put); in put and "
+             "maybe_put the Symbol arm looks the name up first and every allocation in that arm is followed by an "
+             "insert into the symbol table.")
+    sites, wrappers = symbol_sites(facts)
+    n = 0
+    counts = {}
+    for g, dest, loc, how in sites:
+        counts[g.short] = counts.get(g.short, 0) + 1
+        key = "%s|site|%s#%d" % (rule, g.short, counts[g.short])
+        n += 1
+        if dest["p"]:
+            rep.fail(rule, key, "a Symbol cell is built directly into %s in %s, bypassing interning" % (
+                place_str(dest), g.short), [loc])
+            continue
+        sinks = _direct_sinks(g, dest["l"])
+        bad = [short_path(c) for c, t in sinks if c not in PUTS]
+        ret = _returns_value(g, dest["l"])
+        if bad:
+            rep.fail(rule, key, "a Symbol cell built in %s (%s) is handed to %s instead of Heap::put/maybe_put: a second, "
+                     "un-interned copy of the name can enter the heap and eq? on it is #f" % (g.short, how, ", ".join(bad)),
+                     [loc])
+        elif sinks:
+            rep.ok(rule, key, "Symbol built in %s (%s) goes straight to %s" % (
+                g.short, how, ", ".join(sorted({short_path(c) for c, t in sinks}))), [loc])
+        elif ret and g.path in cg.registry:
+            rep.ok(rule, key, "Symbol built in builtin %s (%s) is its Ok value; CALL/TCALL pass it through "
+                   "Heap::maybe_put (see R01c)" % (g.short, how), [loc])
+        elif ret:
+            rep.fail(rule, key, "%s returns a fresh Symbol cell but is neither a constructor wrapper used only by "
+                     "interning callers nor a registered builtin" % g.short, [loc])
+        else:
+            rep.fail(rule, key, "a Symbol cell built in %s (%s) is neither interned nor returned" % (g.short, how), [loc])
+    rep.floor(rule, "VCell::Symbol construction sites", n, 3)
+    # interning arms
+    for pp in sorted(PUTS):
+        fn = need(rep, rule, facts, pp)
+        if fn is None:
+            continue
+        sws = [sw for sw in disc_switches(facts, fn, VCELL) if "Symbol" in sw["arms"]]
+        if not sws:
+            rep.anchor_lost(rule, "Symbol arm in %s" % short_path(pp))
+            continue
+        region = arm_region(fn, sws[0], "Symbol")
+        gets = [bb for bb, t in fn.calls() if bb in region and "HashMap" in callee(t) and callee(t).endswith("::get")]
+        ins = [bb for bb, t in fn.calls() if bb in region and "HashMap" in callee(t) and callee(t).endswith("::insert")]
+        allocs = [(bb, t) for bb, t in fn.calls() if bb in region and callee(t) == HEAP + "alloc"]
+        key = "%s|intern|%s" % (rule, short_path(pp))
+        ok = bool(gets) and bool(allocs) and all(
+            any(fn.dominates(g_, bb) for g_ in gets) and any(fn.dominates(bb, i) for i in ins) for bb, t in allocs)
+        if ok:
+            rep.ok(rule, key, "%s: in the Symbol arm the table lookup dominates the allocation and the allocation "
+                   "dominates the table insert" % short_path(pp), [fn.span])
+        else:
+            rep.fail(rule, key, "%s: the Symbol arm does not have lookup -> allocate -> insert on every allocating "
+                     "path (lookups %d, allocations %d, inserts %d): two cells can hold the same name" % (
+                         short_path(pp), len(gets), len(allocs), len(ins)), [fn.span])
+    # every other write into Heap.heap
+    n_writers = 0
+    for p, g in sorted(facts.fns.items()):
+        if not p.startswith(HEAP):
+            continue
+        for bb, t in g.calls():
+            c = callee(t)
+            if c.endswith("get_mut") or c.endswith("deref_mut") or c.endswith("index_mut"):
+                a0 = t["args"][0] if t["args"] else None
+                o = g.origin(a0) if a0 else None
+                if o and o[0] == "arg" and o[1] == 1 and o[2] and isinstance(o[2][0], dict) and o[2][0].get("n") == "heap":
+                    n_writers += 1
+    rep.ok(rule, "%s|writers" % rule, "mutable accesses to Heap.heap inside Heap: %d (put, maybe_put, free, "
+           "get_at_index_mut)" % n_writers, nontrivial=False)
+
+
 def r18b(ctx, rep, rule="R18b"):
-    pass
+    facts, cg = ctx["facts"], ctx["cg"]
+    rep.rule(rule, "the table follows the sweeper: in Heap::free, on the edge where the freed cell is a Symbol, "
+             "HashMap::remove on the symbol table is called, and it happens before the cell is overwritten with "
+             "Undefined (the overwrite cannot reach the removal).")
+    fn = need(rep, rule, facts, HEAP + "free")
+    if fn is None:
+        return
+    sws = [sw for sw in disc_switches(facts, fn, VCELL) if "Symbol" in sw["arms"]]
+    rem = [(bb, t) for bb, t in fn.calls() if "HashMap" in callee(t) and callee(t).endswith("::remove")]
+    over = []
+    for bb, j, s in fn.stmts():
+        if s["lhs"]["p"] and s["lhs"]["p"][0] == "*" and "VCell" in s["lhs"]["ty"]:
+            o = fn.origin(s["rv"].get("a")) if s["rv"]["k"] == "use" else None
+            over.append(bb)
+    key = "%s|free|remove-on-symbol" % rule
+    if not sws or not rem:
+        rep.fail(rule, key, "Heap::free has no symbol-table removal guarded by a test for VCell::Symbol: a later "
+                 "string->symbol / literal of the same name resolves to a freed cell" , [fn.span])
+        return
+    region = arm_region(fn, sws[0], "Symbol")
+    inreg = [bb for bb, t in rem if bb in region]
+    if inreg:
+        rep.ok(rule, key, "Heap::free removes the name from the symbol table on the Symbol edge", [rem[0][1]["loc"]])
+    else:
+        rep.fail(rule, key, "the HashMap::remove in Heap::free is not on the VCell::Symbol edge", [rem[0][1]["loc"]])
+    key = "%s|free|remove-before-overwrite" % rule
+    if not over:
+        rep.anchor_lost(rule, "overwrite of the freed cell in Heap::free")
+        return
+    bad = [ob for ob in over for rb, _ in rem if rb in fn.reach_from(ob)]
+    # the symbol test itself must also precede the overwrite
+    bad2 = [ob for ob in over if sws[0]["bb"] in fn.reach_from(ob)]
+    if bad or bad2:
+        rep.fail(rule, key, "Heap::free overwrites the cell before it looks at it / removes its name: the name of a "
+                 "freed symbol stays in the table", [fn.span])
+    else:
+        rep.ok(rule, key, "the Symbol test and the table removal precede the overwrite of the freed cell", [fn.span])
+
+
+def r18c(ctx, rep):
+    facts = ctx["facts"]
+    rep.rule("R18c", "identity is pointer identity: Vm::eqv has no (Symbol, Symbol) arm; symbols compare equal only "
+             "through the Ptr == Ptr fast path, which is sound given R18a. Reported as the dependency it is; a "
+             "Symbol arm appearing in eqv is not an error but changes what R18a is needed for.")
+    fn = facts.fn("marwood::vm::compare::<impl marwood::vm::Vm>::eqv")
+    if fn is None:
+        rep.anchor_lost("R18c", "Vm::eqv")
+        return
+    isptr = [t for bb, t in fn.calls() if callee(t) == VCELL + "::is_ptr"]
+    eqs = [t for bb, t in fn.calls() if "vcell::VCell as std::cmp::PartialEq" in (t.get("fnargs") or "")]
+    if len(isptr) >= 2 and eqs:
+        rep.ok("R18c", "R18c|eqv|ptr-fast-path", "Vm::eqv decides two Ptr operands by pointer equality "
+               "(is_ptr x%d, VCell == VCell x%d)" % (len(isptr), len(eqs)), [fn.span])
+    else:
+        rep.fail("R18c", "R18c|eqv|ptr-fast-path", "Vm::eqv no longer has the Ptr == Ptr fast path that makes "
+                 "interned symbols eq?", [fn.span])
+
+
 def run(ctx, rep):
-    pass
+    r18a(ctx, rep)
+    r18b(ctx, rep)
+    r18c(ctx, rep)
+    from . import tables
+    tables.r18d(ctx, rep)
+    rep.not_decided += ["symbol identity across collection schedules directly (follows from C03's rules)",
+                        "round trip of names beyond the escape-introducer clause (R18d)"]
